@@ -35,7 +35,7 @@ use std::sync::atomic::{AtomicBool, AtomicI64, AtomicU64, AtomicUsize, Ordering}
 use std::sync::{Arc, Barrier, Mutex, mpsc};
 use std::time::{Duration, Instant};
 
-pub const CLASSES: [&str; 7] = ["swap-rust", "swap-script", "refcount-storm", "into-func", "frame-slots", "compile-race", "multi-runtime"];
+pub const CLASSES: [&str; 8] = ["swap-rust", "swap-script", "refcount-storm", "into-func", "frame-slots", "compile-race", "multi-runtime", "cross-thread-build"];
 
 #[derive(Clone, Debug)]
 pub struct Case {
@@ -1284,6 +1284,7 @@ pub fn worker_main(a: &[String]) {
         "frame-slots" => super::frames::frame_slots(&c, &mut rep),
         "compile-race" => super::globals::compile_race(&c, &mut rep),
         "multi-runtime" => super::globals::multi_runtime(&c, &mut rep),
+        "cross-thread-build" => super::crossthread::cross_thread_build(&c, &mut rep),
         other => rep.mismatch("unknown share class", json!({"class": other})),
     }
     rep.emit();
@@ -1326,6 +1327,7 @@ pub fn run_case(c: &Case, rep: &mut Report, keep_sample: bool) -> usize {
                 "frame-slots" => "a process in which threads call functions with by-reference locals, temporaries and return slots of all sizes through shared and cloned handles died or hung",
                 "compile-race" => "a process in which threads compile, at the same moment, scripts that share identifiers new to the process died or hung",
                 "multi-runtime" => "a process with several runtimes that register the same Rust types under different Roto names / scopes died or hung",
+                "cross-thread-build" => "a process in which library items, a runtime, a package and a function handle are created on one thread and used on another died or hung",
                 "refcount-storm" => "a process in which threads clone and drop a registered item, the runtime and a function handle while others compile against the shared runtime and call died or hung",
                 _ => "a process calling the closure returned by TypedFunc::into_func while / after another thread dropped the package, the runtime and the other handles died or hung",
             },
@@ -1340,10 +1342,11 @@ pub fn run_case(c: &Case, rep: &mut Report, keep_sample: bool) -> usize {
 fn schedule(tier: &str, pass: u64) -> Vec<(&'static str, u64)> {
     // frame-slots first: its class representatives (slot sizes around the powers of two, every role) are deterministic
     // then the classes about process-global tables (deterministic representatives: multi-runtime 0..4 (sequential | threads) x (names | scopes), compile-race 0..3 (one per variant))
-    let per: [(&'static str, u64); 7] = if tier == "thorough" {
-        [("frame-slots", 24), ("multi-runtime", 16), ("compile-race", 12), ("swap-rust", 8), ("swap-script", 8), ("refcount-storm", 12), ("into-func", 8)]
+    // cross-thread-build: deterministic representatives 0..3 (worker-builds, parallel-parts, context-worker, relay), then random step-to-thread assignments
+    let per: [(&'static str, u64); 8] = if tier == "thorough" {
+        [("cross-thread-build", 16), ("frame-slots", 24), ("multi-runtime", 16), ("compile-race", 12), ("swap-rust", 8), ("swap-script", 8), ("refcount-storm", 12), ("into-func", 8)]
     } else {
-        [("frame-slots", 8), ("multi-runtime", 8), ("compile-race", 4), ("swap-rust", 3), ("swap-script", 4), ("refcount-storm", 6), ("into-func", 4)]
+        [("cross-thread-build", 6), ("frame-slots", 8), ("multi-runtime", 8), ("compile-race", 4), ("swap-rust", 3), ("swap-script", 4), ("refcount-storm", 6), ("into-func", 4)]
     };
     let mut v = vec![];
     for (class, n) in per {
